@@ -34,6 +34,7 @@ fn replay(prop: &str, file: &str) -> i32 {
             "exhaustive" => props_query::replay_exhaustive(&case),
             "family" => props_algebra::replay_family(&case),
             "lang" => props_lang::replay_lang(&case),
+            "lang_any" => props_lang::replay_lang_any(&case),
             "rules" => props_rules::replay_rules(&case),
             "captures" => props_capture::replay_captures(&case),
             "routes" => props_capture::replay_routes(&case),
